@@ -524,6 +524,16 @@ let gen_case (toks : string list) : string =
        | BSize n -> string_of_int (int_of_nat n)
        | BBytes b -> hex_of_ints (canon_msg sc tyi (ints_of_bytes b)))) ops in
     String.concat " " out
+  | [op; schema; ty; input] when String.length op >= 2 && String.sub op 0 2 = "RA" ->
+    (* the reference semantics on ARBITRARY bytes, as a conforming parser behaves: RefMsg.v accepts varints of
+       more than 64 bits (it keeps the unbounded value), a real parser rejects them: that is varints_fit *)
+    let sc = parse_schema schema in
+    let tyi = nat_of_int (int_of_string ty) in
+    let p = bytes_of_hex input in
+    let fuel = nat_of_int (List.length p + 2) in
+    (match ref_decode sc fuel tyi p with
+     | None -> "err"
+     | Some v -> if varints_fit sc fuel tyi p then "ok " ^ str_msg sc (int_of_string ty) (normalize sc fuel tyi v) else "err")
   | [op; schema; ty; input] when String.length op >= 2 && String.sub op 0 2 = "LG" ->
     let sc = parse_schema schema in
     let tyi = nat_of_int (int_of_string ty) in
